@@ -42,6 +42,7 @@ CONSTANTS MaxH,         \* heights / slots 0..MaxH
           Weaken,
           GapFix,       \* BOOLEAN: FALSE = SaveInstance as at the pinned commit (highest iff msg.Height >= c.Height);
                         \* TRUE = the proposed repair (also highest when above the stored highest height)
+          CertRounds,   \* rounds of the decided certificates delivered ({1, 2}; {1} in lean attack configs)
           Direct,       \* BOOLEAN: include CtlStart
           Timeouts      \* BOOLEAN: include OnTimeout
 
@@ -221,7 +222,7 @@ Restart ==
 
 Next == \/ \E s \in Heights : StartDuty(s) \/ CtlStart(s)
         \/ \E h \in Heights : LocalMsgs(h) \/ Commit4(h)
-        \/ \E h \in Heights, r \in Rounds, n \in {3, 4} : Decided(h, r, n)
+        \/ \E h \in Heights, r \in CertRounds, n \in {3, 4} : Decided(h, r, n)
         \/ \E h \in Heights, r \in Rounds : OnTimeout(h, r)
         \/ Restart
 Spec == Init /\ [][Next]_vars
